@@ -58,7 +58,7 @@ def main():
         if not skip:
             if os.path.exists(demo):
                 shutil.copy(demo, os.path.join(wt, "tests", "seed_demo.rs"))
-                rc, out = sh(["cargo", "test", "--offline", "--test", "seed_demo"], cwd=wt, env=cargo_env())
+                rc, out = sh(["cargo", "test", "--offline", "--test", "seed_demo", "--", "--test-threads=1"], cwd=wt, env=cargo_env())
                 res["demo_on_unchanged_tree"] = "pass" if rc == 0 else "FAIL"
                 if rc != 0: res["demo_on_unchanged_output"] = out[-1500:]
         rc, out = sh(["git", "apply", patch], cwd=wt)
@@ -79,7 +79,7 @@ def main():
             if rc != 0: res["existing_suite_output"] = "\n".join(l for l in out.splitlines() if "FAILED" in l or "panicked" in l)[-1500:]
             if os.path.exists(demo):
                 shutil.copy(demo, os.path.join(wt, "tests", "seed_demo.rs"))
-                rc, out = sh(["cargo", "test", "--offline", "--test", "seed_demo"], cwd=wt, env=cargo_env())
+                rc, out = sh(["cargo", "test", "--offline", "--test", "seed_demo", "--", "--test-threads=1"], cwd=wt, env=cargo_env())
                 res["demo_with_patch"] = "fail (as required)" if rc != 0 else "PASSES (change not demonstrated)"
                 os.remove(os.path.join(wt, "tests", "seed_demo.rs"))
         for c in checks:
